@@ -72,6 +72,21 @@ def field_mutation(draw: Any, frame: str) -> str:
     return frame[:46] + pl[:i] + v + pl[i + 2:]
 
 
+@lru_cache(maxsize=None)
+def corpus_frames() -> tuple[str, ...]:
+    """Every distinct frame (no timestamp / RSSI) of the committed corpus of real log lines - incl. the rarer verbs and codes
+    (W|313F, W|2349, RQs from thermostats, HVAC traffic) that the seven system logs do not contain."""
+    from vf.core import VERIF_DIR
+
+    out = []
+    with open(os.path.join(VERIF_DIR, "corpus", "lines.txt"), errors="replace") as fh:
+        for ln in fh:
+            m = _LINE.match(ln.rstrip("\n"))
+            if m and len(m.group(2)) >= 48 and "*" not in m.group(2):
+                out.append(m.group(2).split(" <")[0].rstrip())
+    return tuple(dict.fromkeys(out))
+
+
 # --- synthetic traffic: entity-directed frames with extreme field values for every zone class / domain / device role ------
 PCT = ("00", "01", "64", "C8", "C9", "EF", "F0", "F1", "FA", "FF", "7F")
 TMP = ("0000", "07D0", "7FFF", "7EFF", "31FF", "8000", "FFFF", "0001")
@@ -190,7 +205,7 @@ def history(draw: Any, max_len: int = 120, min_len: int = 10, synthetic: bool = 
     h = frames[start:start + n]
     muts = []
     for _ in range(draw(st.integers(0, 6))):
-        kind = draw(st.sampled_from(("delete", "duplicate", "swap", "move-block", "splice", "field", "field", "field") + (("synthetic", "synthetic") if synthetic else ())))
+        kind = draw(st.sampled_from(("delete", "duplicate", "swap", "move-block", "splice", "corpus-lines", "field", "field", "field") + (("synthetic", "synthetic") if synthetic else ())))
         if not h:
             break
         i = draw(st.integers(0, len(h) - 1))
@@ -214,6 +229,10 @@ def history(draw: Any, max_len: int = 120, min_len: int = 10, synthetic: bool = 
             h[i:i] = list(other[j:j + k])
         elif kind == "field":
             h[i] = draw(field_mutation(h[i]))
+        elif kind == "corpus-lines":  # a few real lines from other logs (rarer verbs / codes)
+            cf = corpus_frames()
+            writes = tuple(f for f in cf if f[:2] == " W")  # writes are rare in logs, and have rules of their own (C16)
+            h[i:i] = [draw(st.sampled_from(writes if writes and draw(st.integers(0, 2)) == 0 else cf)) for _ in range(draw(st.integers(1, 6)))]
         elif kind == "synthetic":  # entity-directed frames for this system's controller: every zone class / domain / role, extreme values
             ctl = next((f[7:16] for f in h if f[7:9] == "01"), None) or next((f[17:26] for f in h if f[17:19] == "01"), "01:145038")
             h[i:i] = draw(synthetic_frames(ctl, draw(st.integers(3, 25))))
